@@ -96,6 +96,8 @@ def case_strategy():
             "end": st.sampled_from(["terminator", "terminator", "eof", "truncated", "padding", "garbage"]),
             "garbage": S.binary(0, 40),
             "truncate": st.integers(1, 9),
+            # the block is also decoded from a stream in which it starts at this offset (after unrelated bytes)
+            "stream_off": st.one_of(st.just(0), st.integers(1, 70), st.sampled_from([4096, 8192])),
         }
     )
 
@@ -242,6 +244,20 @@ def execute(case, stats):
         if idx not in naming.PRETTY:
             check(same(pretties[0], raws[0]), "values:pretty_not_raw", f"index {idx} has no pretty-printer but pretty {pretties[0]!r} != raw {raws[0]!r}"[:500])
 
+    # the same block read from a file object positioned at its start inside a larger stream
+    off = case.get("stream_off")
+    if off is not None:
+        import io
+
+        from dissect.cobaltstrike.beacon import iter_settings
+
+        stream = io.BytesIO(bytes((i * 37 + 1) & 0xFF or 1 for i in range(off)) + block)
+        stream.seek(off)
+        got_f = lib(lambda: [(s.index.value, s.type.value, s.length, bytes(s.value)) for s in iter_settings(stream)], what="iter_settings(stream at offset)")
+        eq(got_f, ref, "decode:stream_offset", f"iter_settings on a stream positioned at offset {off} of {off + len(block)} bytes")
+        _, end_pos = tlv.decode(block, with_end=True)
+        if end_pos is not None:
+            eq(stream.tell(), off + end_pos, "decode:stream_end_position", f"position after decoding a terminated block that starts at offset {off}")
     # read-only views are cached: same object on re-access
     check(c.settings is views["settings"] and c.raw_settings is views["raw_settings"], "views:not_cached", "views must be cached")
     nrec = len(ref)
@@ -260,6 +276,8 @@ def execute(case, stats):
         feats.append("index36")
     if any(r[2] >= 32768 for r in ref):
         feats.append("huge_value")
+    if off:
+        feats.append("stream_at_offset")
     stats.note(case, nrec >= 3 and bool(feats), classes=feats + ["end_" + end, "records_%s" % ("0" if nrec == 0 else "1-2" if nrec < 3 else "3+")])
 
 
